@@ -20,14 +20,16 @@ KNOWN_SIGNATURES = [
     # a live cell that touches v / e through the other halfedge only is not reported.  With closed faces and closed
     # cells (everything add_face/add_cell accept with the check on, or build from vertices) the two sets coincide
     # (theorems vc_natural / ec_natural).
-    (re.compile(r"^natural (vc|ec)\("), "vc_iter/ec_iter miss cells on open (unchecked) faces / cells"),
+    # Not a finding (lead's decision): faces / cells accepted without topology check are outside "valid".  Suppressed ONLY
+    # when the impl-side oracle itself established that the centre touches a non-closed face / cell ("natural-open");
+    # the same mismatch on closed faces and cells is reported by the harness as a C05 oracle failure ("natural ...").
+    (re.compile(r"^natural-open (vc|ec)\("), "vc_iter/ec_iter on a centre that touches a non-closed (unchecked) face / cell"),
 ]
 
-# findings that are reproduced by one corpus script each and reported through ctx.known ONLY when
-# KNOWN_FINDINGS.json lists them (matched on the `id` field); otherwise they are skipped silently
-FINDING_D8 = "D8-bc_iter-without-face-incidences"
+# the finding that is reproduced by a corpus script and reported through ctx.known ONLY when KNOWN_FINDINGS.json lists it
+# (matched on the `id` field); otherwise it is skipped silently.  (D8 and D15 are repaired in /repo: their corpus scripts
+# are plain regression cases now - a crash or a model/impl difference on them is a violation like any other.)
 FINDING_D11 = "D11-step-back-from-end-stays-invalid"
-FINDING_D15 = "D15-cf_iter-back-from-begin-then-forward"
 
 def _listed(pid, fid):
     for f in fw.known_findings(pid):
@@ -115,8 +117,8 @@ def known_signature(msg):
 def judge_queries(ctx, qr, oracles=("C05",)):
     """fills ctx from a QueryRun: oracle failures of the given oracles are violations with the script as replay,
     a crash on a Query is a violation, a model/impl difference breaks the correspondence."""
-    d8, d11, d15 = _listed(ctx.id, FINDING_D8), _listed(ctx.id, FINDING_D11), _listed(ctx.id, FINDING_D15)
-    d8_seen = d11_seen = d15_seen = False
+    d11 = _listed(ctx.id, FINDING_D11)
+    d11_seen = False
     suppressed = {}
     for of in qr.oracle_fails:
         why = known_signature(of["what"])
@@ -134,34 +136,23 @@ def judge_queries(ctx, qr, oracles=("C05",)):
     crashed_scripts = set()
     for c in qr.crashes:
         crashed_scripts.add(c["script"])
-        if c["script"].startswith(FINDING_D8) and "QueryBC" in c["op"]:
-            d8_seen = True
-            continue
-        if c["script"].startswith(FINDING_D15) and "QueryCF" in c["op"]:
-            d15_seen = True
-            continue
         ctx.violations.append({"kind": "input", "oracle": "sanitizer", "script_name": c["script"], "first_bad_step": c["step"],
                                "what": "the library crashed / aborted (ASan, UBSan or _GLIBCXX_ASSERTIONS) while executing: " + c["op"],
                                "script": c["lines"]})
     for d in qr.divs:
         if d.script in crashed_scripts: continue     # already accounted for above
-        if d.script.startswith(FINDING_D15) and "QueryCF" in d.echo:
-            d15_seen = True                          # no abort (spare capacity behind the vector): garbage where the model says U
-            continue
         ctx.broken.append({"kind": "correspondence", "name": "lock-step iterator model / real iterators, component %s" % d.component,
                            "detail": dict(d.as_dict(), script_lines=getattr(d, "lines", None))})
         if len(ctx.broken) > 6: break
-    if d8_seen and d8: ctx.known.append(d8.get("line") or "bc_iter() with face bottom-up incidences disabled indexes the empty incident-cell cache (abort under _GLIBCXX_ASSERTIONS)")
     if d11_seen and d11: ctx.known.append(d11.get("line") or "--end() / ++ to end then -- yields the last handle with valid()==false")
-    if d15_seen and d15: ctx.known.append(d15.get("line") or "cf_iter(c); --it; ++it; reads past the end of the cell's halfface vector (CellFaceIterImpl::operator-- early return)")
     if suppressed: ctx.notes.append({"suppressed_known_signatures": suppressed})
-    ctx.cov["corpus_findings_reproduced"] = {"D8": d8_seen, "D11": d11_seen, "D15": d15_seen}
+    ctx.cov["corpus_findings_reproduced"] = {"D11": d11_seen}
 
 def fill_coverage(ctx, qr):
     ctx.cov["evaluations"] += qr.qstats["accessor_lines"]
     ctx.cov["distinct_nontrivial"] += len(qr.distinct)
     crashed = {c["script"] for c in qr.crashes}
-    unexpected = [d for d in qr.divs if d.script not in crashed and not d.script.startswith(FINDING_D15)]
+    unexpected = [d for d in qr.divs if d.script not in crashed]
     ctx.cov["traces_validated_against_impl"] = qr.qstats["accessor_lines"] if not unexpected else 0
     ctx.cov["unexpected_divergences"] = len(unexpected)
     ctx.cov["query_stats"] = {k: v for k, v in qr.qstats.items() if k not in ("classes",)}
@@ -194,8 +185,10 @@ def check_C05(ctx):
                        "subset of incidence kinds, empty/tiny circulators, self-loops, parallel edges, 2-gons, open cells) with 'Query max_laps walks' lines; at a Query "
                        "both sides print, for the 6 entity iterators, the 26 circulator classes on EVERY centre entity, valence, is_boundary and the 6 boundary "
                        "iterators: forward trace (max_laps 1 and 2), terminal state, end circulator and ==, range-for, and (*it,valid,lap) after each step of each walk; "
-                       "lines compared textually model vs real library; impl-side oracles compare every forward trace with the brute-force incident set computed from "
-                       "edge()/face()/cell()/is_deleted only, check end==advanced begin, --(++it)==it inside the valid range, empty => invalid.  evaluations = accessor "
+                       "plus the copying forms it+2, (it+2)-1, it-1; lines compared textually model vs real library; impl-side oracles compare every forward trace with the brute-force incident set computed from "
+                       "edge()/face()/cell()/is_deleted only, check end==advanced begin, --(++it)==it inside the valid range, empty => invalid.  vertex_cells / edge_cells are additionally compared with the natural incident set (all live cells with a face touching the vertex / on the edge); "
+                       "a mismatch is suppressed only when the oracle itself establishes that the centre touches a face that is not a closed loop or a cell that is not a closed surface "
+                       "(accepted without topology check, outside the valid histories), otherwise it is a C05 failure.  evaluations = accessor "
                        "lines compared; distinct_nontrivial = distinct (state flags, deletion flags, accessor line) whose forward trace / walk is non-empty")
     ctx.cov["samples"] += [{"theorem": t} for t in fw.theorem_statements("Props/Properties_C05.v", 4)]
     ctx.assumptions += ["max_laps >= 1; circulator steps are only claimed where the C++ performs no out-of-range read (theorems carry the explicit non-UB outcome)",
